@@ -10,6 +10,7 @@
 
 #include "align/tab_column.h"
 #include "braces.h"
+#include "char_table.h"
 #include "indent.h"
 #include "prototypes.h"
 #include "reindent_line.h"
@@ -1089,8 +1090,15 @@ void output_text(FILE *pfile)
                   before = before->GetPrev();
                }
 
+               // ... also two words that only an empty chunk (virtual brace,
+               // Pawn virtual semicolon) separates: 'r = MAXV' + 'for'
                if (  before->IsNotNullChunk()
-                  && before->TestFlags(PCF_FORCE_SPACE))
+                  && (  before->TestFlags(PCF_FORCE_SPACE)
+                     || (  before != prev
+                        && before->Len() > 0
+                        && pc->Len() > 0
+                        && CharTable::IsKw2(before->GetStr()[before->Len() - 1])
+                        && CharTable::IsKw2(pc->GetStr()[0]))))
                {
                   reindent_line(pc, cpd.column + 1);
                }
